@@ -13,44 +13,55 @@ LEGS = [
 ]
 
 TECHNIQUE = ("Coq proofs over a function-by-function model of gmtls/conn.go's record layer (halfConn.encrypt/decrypt, incSeq, "
-             "extractPadding, padToBlockSize, roundUp, writeRecordLocked, Write, readRecord, Read) with abstract primitives; "
-             "the extracted model, instantiated with the Coq specifications of SM4, HMAC-SM3 and GCM, is run against the real "
-             "code on single-record mutants (white box) and on attacker scripts over real connections (black box)")
-LEVEL_TEXT = ("Theorems in Coq (Props/C07.v): extractPadding's constant-time arithmetic equals the RFC padding rule for every payload; "
-              "incSeq is +1 on a 64-bit big-endian counter and panics exactly at 2^64-1; nonce/AAD/MAC-input layouts; decrypt(encrypt(r)) = r "
-              "for CBC+MAC and AEAD with abstract primitives; for every byte stream an attacker can present (every script over deliver / "
-              "flip / truncate / extend / swap / duplicate / drop / inject / cross-direction and cross-connection replay / header rewrite), "
-              "the receiver delivers a prefix of what the sender wrote, its first error is permanent, and its sequence number equals the "
-              "number of accepted records - relative to the stated idealisation (no forged tag is accepted); writes of any sizes are "
-              "fragmented and reassembled in order over a faithful channel. The model is tied to /repo by ~80 000 single-record cases "
-              "(exhaustive bit flips for records <= 128 bytes, all padding lengths 0..255 with every padding byte corrupted) and ~300 "
-              "man-in-the-middle scripts on real GMSSL connections, and decodes/encodes real records byte-exactly.")
-LEVEL_NOTE = ("Idealisation (premise of the integrity theorems, not an axiom): ideal authenticity of HMAC-SM3 and SM4-GCM - a tag / AEAD "
-              "ciphertext that verifies under the honest key was produced by the sender for exactly that (seq, header, fragment). "
-              "Modelled, not verified: SM4, SM3, HMAC and GCM themselves (Section variables in the proofs; their Coq specifications in the "
-              "runner), crypto/cipher CBC, sockets, timing, locks, temporary network errors, renegotiation, ChangeCipherSpec; one "
-              "direction at a time (the alert the receiver sends back is counted, not fed into the other direction). Trusted: Coq kernel, "
-              "extraction, the Go drivers and the hook file, generator coverage.")
+             "changeCipherSpec, extractPadding, padToBlockSize, roundUp, writeRecordLocked, Write, sendAlertLocked, readRecord in "
+             "both phases, Read incl. the close_notify look-ahead), first with abstract primitives, then instantiated with the Coq "
+             "specifications of SM4, HMAC-SM3 and GCM for which the premises are proved; the extracted model is run against the "
+             "real code on single-record mutants, stateful pairs and handshake-phase reads (white box), on attacker scripts, "
+             "close sequences and captured connections (black box, incl. key-block derivation from the logged master secret)")
+LEVEL_TEXT = ("Theorems in Coq (Props/C07.v, 28): extractPadding's constant-time arithmetic equals the RFC padding rule for every payload; "
+              "incSeq is +1 on a 64-bit big-endian counter and panics exactly at 2^64-1; the sequence number is reset only by a requested "
+              "ChangeCipherSpec arriving with no handshake bytes pending; nonce/AAD/MAC-input/record layouts; fresh explicit IVs from the "
+              "randomness stream; decrypt(encrypt(r)) = r; for every byte stream an attacker can present (every script over deliver / flip / "
+              "truncate / extend / swap / duplicate / drop / inject / cross-direction and cross-connection replay / header rewrite) the "
+              "receiver delivers a prefix of what the sender wrote, its first error is permanent, its sequence number equals the number of "
+              "accepted records - relative to the stated idealisation only; Write always succeeds (given randomness) and the writes arrive "
+              "in order; after a failure the fatal alert stops both directions; Read never drops the unread tail of a record. For SM4 / "
+              "HMAC-SM3 / GCM-over-SM4 the premises on the primitives are proved (C07_*_sm4 theorems carry none). The model is tied to /repo "
+              "by ~61 000 white-box cases per quick run (exhaustive bit flips for records <= 128 bytes, all padding lengths 0..255 with every "
+              "padding byte corrupted, TLS 1.0 implicit-IV chains, 370 handshake-phase reads) and ~340 black-box cases on real GMSSL "
+              "connections; the extracted development also derives the key block from the logged master secret and decodes every "
+              "captured record of real connections.")
+LEVEL_NOTE = ("Idealisation (premise of the integrity theorems, not an axiom): ideal authenticity of HMAC-SM3 and SM4-GCM - every "
+              "halfConn.decrypt call of the run that succeeds does so on an (additional data, plaintext) pair resp. MAC input the sender "
+              "authenticated (trace form of INT-CTXT / unforgeability; C07_idealisation_is_about_* tie it to open / mac). "
+              "Proved, no longer assumed: SM4 decrypt after encrypt and output shape (from the SM4 family's lemmas), HMAC-SM3 output length, "
+              "GCM open after seal. Modelled, not verified: crypto/cipher CBC and GCM of the Go standard library (the model uses the "
+              "SP 800-38A/D definitions), sockets, timing, locks, temporary network errors, renegotiation (Config.Renegotiation = Never), "
+              "how much of the inbound stream is already buffered when Read looks ahead (the model takes all of it as buffered; this only "
+              "moves an error report between two Read calls). Trusted: Coq kernel, extraction, the Go drivers and the hook file, "
+              "generator coverage.")
 TRUSTED_BASE = [
     "model coq/Rec/RecordModel.v written by hand from gmtls/conn.go, cipher_suites.go, gm_support.go; tied by the correspondence runs of this check",
-    "primitive specifications used only by the runner: coq/SM4/SM4Spec.v, coq/SM3/SM3Spec.v, coq/SM3/HMACSpec.v (other families), coq/Rec/GcmRef.v (SP 800-38D; GHASH vectors of the GCM spec and RFC 8998 A.1 with SM4 as Examples, Rec/GcmRefTest.v)",
+    "specifications of the primitives: coq/SM4/SM4Spec.v, coq/SM3/SM3Spec.v, coq/SM3/HMACSpec.v (other families; facts used: SM4/SM4Lemmas.v decrypt_encrypt_rk and bytes_of_state_block16, SM3/HMACProofs.v hmac_sm3_length), coq/Rec/GcmRef.v (SP 800-38D; GHASH vectors and RFC 8998 A.1 with SM4 as Examples), coq/Agree/KeyModel.v (key block derivation, runner only)",
     "extraction: ExtrOcamlBasic only; nat/positive/N stay inductive; OCaml 4.13.1 + dune; runner ocaml/rec/main.ml and ocaml/conv.ml.tmpl",
-    "hook file /repo/gmtls/verif_record_verif.go (build tag verif): constructs a bare halfConn with given suite/keys/seq and calls encrypt/decrypt/incSeq/extractPadding/roundUp/padToBlockSize",
-    "Go drivers harness/cmd/c07w (white box, hand-built CBC records with chosen padding) and harness/cmd/c07 (black box: in-memory buffered net.Conn pair, record-parsing man in the middle)",
+    "hook file /repo/gmtls/verif_record_verif.go (build tag verif): bare halfConn with given suite/version/keys/seq (encrypt/decrypt/incSeq), extractPadding/roundUp/padToBlockSize, and Conn.readRecord in the handshake phase on a bare Conn over a byte string",
+    "Go drivers harness/cmd/c07w (white box, hand-built CBC records with chosen padding) and harness/cmd/c07 (black box: in-memory buffered net.Conn pair, record-parsing man in the middle, KeyLogWriter captures with a seeded Config.Rand)",
 ]
 ASSUMPTIONS = [
     "ideal authenticity of HMAC-SM3 (CBC suite): every (MAC input, tag) pair that verifies at the receiver during the run was MACed by the sender (premise no_forgery of the integrity theorems)",
-    "ideal authenticity of SM4-GCM (GCM suite): every (nonce, additional data, ciphertext) that opens at the receiver during the run was sealed by the sender with exactly that nonce, additional data and plaintext",
-    "block cipher: length-preserving, decrypt(encrypt(b)) = b on blocks; MAC: fixed tag length, byte output; AEAD: open(seal(p)) = p, |seal(p)| = |p| + overhead (premises of decrypt_encrypt_record / fragmentation_in_order)",
-    "sequence numbers stay below 2^64-1 (incSeq panics at the wrap, as the code does); record payloads are byte strings shorter than 2^30",
-    "enough randomness: config.rand() never fails (one block per CBC record)",
+    "ideal authenticity of SM4-GCM (GCM suite): every (additional data, plaintext) that opens at the receiver during the run was sealed by the sender",
+    "for the theorems over abstract primitives: prims_ok (block cipher length-preserving with decrypt(encrypt(b)) = b on byte blocks and byte output; MAC of fixed length with byte output; AEAD open(seal(p)) = p, |seal(p)| = |p| + overhead); proved for SM4 / HMAC-SM3 / GCM over SM4 (C07_sm4_prims_ok)",
+    "sequence numbers stay below 2^64-1 (incSeq panics at the wrap, as the code does); record payloads are byte strings shorter than 2^29",
+    "config.rand() delivers bytes (one block per CBC record)",
     "the inbound connection delivers a byte stream and then EOF; temporary read errors only delay; Config.Renegotiation = RenegotiateNever",
 ]
 RULE = ("white box (seeded): per suite, payload lengths 0..43 (cbc) / 0..99 (gcm) give records <= 128 bytes: the genuine record, EVERY single-bit "
         "flip of every byte incl. header (length-field bits are expected to be ignored by halfConn.decrypt), every truncation, extensions 1..48; "
         "hand-built CBC records for every padding length 0..255 (must be accepted) with every padding byte corrupted, MAC bits flipped, "
         "inconsistent length bytes (must be rejected); payload sizes up to 16384; sequence numbers 0, 1, 2^32-1, 2^32, 2^64-2, 2^64-1 "
-        "(panic), wrong seq / key / MAC key / fixed nonce / direction; extractPadding on 3800 tails; incSeq, roundUp, padToBlockSize sweeps. "
+        "(panic), wrong seq / key / MAC key / fixed nonce / direction; extractPadding on 3800 tails; incSeq, roundUp, padToBlockSize sweeps; "
+        "48 stateful write/read pairs (several records, GMSSL and TLS 1.0 implicit IV); 372 handshake-phase readRecord runs "
+        "(ChangeCipherSpec with / without pending handshake bytes or pending cipher spec, malformed, type and version checks, alerts, SSLv2). "
         "black box (seeded): 300 scripts (25 categories x suite x direction: every grammar element as first deviation at the first / a middle / "
         "the last record, several deviations, all-genuine, empty) over real GMSSL connections after the handshake; the model replays the "
         "same writes and script with its own keys (Write fragmentation incl. 1/n-1 split and dynamic record sizing, apply_script, Read "
@@ -58,7 +69,8 @@ RULE = ("white box (seeded): per suite, payload lengths 0..43 (cbc) / 0..99 (gcm
         "whether an alert goes back. capture cases (K): 12 real connections (both suites) with Config.KeyLogWriter and a seeded Config.Rand; "
         "the extracted Coq development derives the key block from the logged master secret and the hello randoms (PRF over HMAC-SM3, "
         "Agree/KeyModel.v) and opens every record captured after ChangeCipherSpec in both directions (Finished under sequence number 0, then "
-        "the application data): the decoded bytes must equal what the endpoints wrote and read. "
+        "the application data): the decoded bytes must equal what the endpoints wrote and read. close cases (C): 24 runs of writes, "
+        "close_notify, all bytes buffered at once, Read buffers smaller than the last record. "
         "A case is non-trivial unless it is an empty-input helper call; distinct = distinct case text")
 
 
